@@ -142,6 +142,15 @@ type vFileC12 struct {
 	removedAt time.Time
 	remover   int
 	ghost     time.Duration
+	byRefresh bool // saved by a process that already held its lock (replacement lock file)
+}
+
+// vListRecC12 is what one List call showed / did not show, per owning incarnation.
+type vListRecC12 struct {
+	at             time.Time
+	visible        map[int]int // live lock files listed
+	omittedRefresh map[int]int // live replacement lock files not yet visible to this lister
+	omittedOther   map[int]int // other live lock files not yet visible to this lister
 }
 
 type vOpC12 struct {
@@ -154,9 +163,12 @@ type vOpC12 struct {
 }
 
 type vHolderC12 struct {
-	proc int
-	excl bool
-	ctx  context.Context
+	proc  int
+	inc   int
+	excl  bool
+	ctx   context.Context
+	since time.Time
+	list  *vListRecC12 // the last listing of the acquisition that succeeded (its re-check)
 }
 
 type vWindowC12 struct { // one acquisition between its create and its re-check
@@ -182,6 +194,7 @@ type vWorldC12 struct {
 	views     []*vViewC12
 
 	violation string
+	shape     string // "" or the recognised shape of the violation
 	trace     []string
 	sig       []string // canonical executed-operation sequence (schedule identity)
 
@@ -190,6 +203,7 @@ type vWorldC12 struct {
 	interleavedMax int
 	nExecuted      int
 	maxHolders     int
+	maxStall       time.Duration
 }
 
 func (w *vWorldC12) signal() {
@@ -208,6 +222,21 @@ func (w *vWorldC12) logf(format string, args ...any) { // w.mu held
 // checkInvariant: among the processes that hold a lock (LockRepo succeeded, not yet
 // unlocking, context not cancelled) no exclusive one coexists with any other. w.mu held.
 func (w *vWorldC12) checkInvariant(where string) {
+	w.checkInvariantNew(where, nil)
+}
+
+// listingGapC12 reports whether x's successful re-check missed every live lock file of
+// y only because y's replacement lock file (written by a refresh, the old one already
+// removed) was not yet visible in x's listing.
+func listingGapC12(x, y *vHolderC12) bool {
+	l := x.list
+	if l == nil || y.since.After(l.at) {
+		return false
+	}
+	return l.omittedRefresh[y.inc] > 0 && l.visible[y.inc] == 0 && l.omittedOther[y.inc] == 0
+}
+
+func (w *vWorldC12) checkInvariantNew(where string, newcomer *vHolderC12) {
 	var active []*vHolderC12
 	excl := false
 	for _, h := range w.holders {
@@ -229,6 +258,17 @@ func (w *vWorldC12) checkInvariant(where string) {
 			d = append(d, fmt.Sprintf("process %d exclusive=%v", h.proc, h.excl))
 		}
 		w.violation = fmt.Sprintf("at +%v (%s): conflicting locks are held at the same time: %s", time.Since(w.start), where, strings.Join(d, "; "))
+		if newcomer != nil {
+			gap := true
+			for _, h := range active {
+				if h != newcomer && (h.excl || newcomer.excl) && !listingGapC12(newcomer, h) {
+					gap = false
+				}
+			}
+			if gap {
+				w.shape = "refresh-listing-gap"
+			}
+		}
 		w.logf("VIOLATION %s", w.violation)
 	}
 }
@@ -249,6 +289,13 @@ type vViewC12 struct {
 	// after the Load that preceded it; lock files are immutable, so a file judged stale
 	// stays stale and deferring its removal adds no behaviour).
 	noParkRemove bool // w.mu
+
+	// stall accounting (w.mu): total time operations of the current lock operation
+	// (one LockRepo call / refresh / forced refresh / release / RemoveStaleLocks run) of
+	// this process have spent parked
+	stallUsed time.Duration
+	lastOp    time.Time
+	lastList  *vListRecC12 // w.mu
 }
 
 var _ backend.Backend = &vViewC12{}
@@ -315,7 +362,12 @@ func (v *vViewC12) park(kind, name string) error {
 		w.mu.Unlock()
 		return errDeadC12
 	}
-	op := &vOpC12{view: v, kind: kind, fseq: -1, at: time.Now(), release: make(chan bool, 1)}
+	now := time.Now()
+	if _, acq := w.acquiring[v.inc]; !acq && now.Sub(v.lastOp) >= time.Second {
+		v.stallUsed = 0 // a new lock operation of this process begins
+	}
+	v.lastOp = now
+	op := &vOpC12{view: v, kind: kind, fseq: -1, at: now, release: make(chan bool, 1)}
 	if f := w.byName[name]; f != nil {
 		op.fseq = f.seq
 	}
@@ -332,12 +384,20 @@ func (v *vViewC12) park(kind, name string) error {
 
 // exec runs the effect of a released operation atomically (the scheduler does nothing
 // until the bubble is quiescent again) and applies the crash point.
-func (v *vViewC12) exec(kind, name string, effect func() error) error {
+func (v *vViewC12) exec(ctx context.Context, kind, name string, effect func() error) error {
 	w := v.w
 	w.mu.Lock()
 	if v.dead {
 		w.mu.Unlock()
 		return errDeadC12
+	}
+	v.lastOp = time.Now()
+	if ctx.Err() != nil {
+		// like the connection-limiting layer every production backend is wrapped in: a
+		// request whose context is already cancelled is not issued
+		w.logf("p%d#%d %s -> not issued, %v", v.proc, v.inc, kind, ctx.Err())
+		w.mu.Unlock()
+		return ctx.Err()
 	}
 	v.ops++
 	crashNow := v.crashAt > 0 && v.ops == v.crashAt
@@ -401,13 +461,14 @@ func (v *vViewC12) Save(ctx context.Context, h backend.Handle, rd backend.Rewind
 	if err := v.park("save", h.Name); err != nil {
 		return err
 	}
-	return v.exec("save", h.Name, func() error {
+	return v.exec(ctx, "save", h.Name, func() error {
 		w := v.w
 		if f := w.byName[h.Name]; f != nil && !f.removed {
 			return errors.New("c12: file already exists")
 		}
 		n := len(w.files)
-		f := &vFileC12{seq: n, name: h.Name, data: buf, owner: v.inc, savedAt: time.Now(),
+		_, holding := w.holders[v.inc]
+		f := &vFileC12{seq: n, name: h.Name, data: buf, owner: v.inc, savedAt: time.Now(), byRefresh: holding,
 			vis: w.sc.Vis[n%len(w.sc.Vis)], ghost: w.sc.Ghost[n%len(w.sc.Ghost)]}
 		if f.vis > 0 {
 			w.classes["listing-delay"] = true
@@ -426,7 +487,7 @@ func (v *vViewC12) Load(ctx context.Context, h backend.Handle, length int, offse
 		return err
 	}
 	var data []byte
-	err := v.exec("load", h.Name, func() error {
+	err := v.exec(ctx, "load", h.Name, func() error {
 		f := v.w.byName[h.Name]
 		if f == nil || f.removed {
 			v.w.classes["load-of-removed-file"] = true
@@ -453,7 +514,7 @@ func (v *vViewC12) Remove(ctx context.Context, h backend.Handle) error {
 			return err
 		}
 	}
-	return v.exec("remove", h.Name, func() error {
+	return v.exec(ctx, "remove", h.Name, func() error {
 		f := v.w.byName[h.Name]
 		if f == nil || f.removed {
 			return errNotFoundC12
@@ -474,8 +535,10 @@ func (v *vViewC12) List(ctx context.Context, t backend.FileType, fn func(backend
 		return err
 	}
 	var out []backend.FileInfo
-	err := v.exec("list", "", func() error {
+	err := v.exec(ctx, "list", "", func() error {
 		now := time.Now()
+		rec := &vListRecC12{at: now, visible: map[int]int{}, omittedRefresh: map[int]int{}, omittedOther: map[int]int{}}
+		v.lastList = rec
 		for _, f := range v.w.files {
 			switch {
 			case f.removed:
@@ -484,8 +547,14 @@ func (v *vViewC12) List(ctx context.Context, t backend.FileType, fn func(backend
 					out = append(out, backend.FileInfo{Name: f.name, Size: int64(len(f.data))})
 				}
 			case f.owner == v.inc || now.Sub(f.savedAt) >= f.vis:
+				rec.visible[f.owner]++
 				out = append(out, backend.FileInfo{Name: f.name, Size: int64(len(f.data))})
+			case f.byRefresh:
+				rec.omittedRefresh[f.owner]++
+				v.w.classes["listing-misses-new-file"] = true
+				v.w.classes["listing-misses-replacement-lock"] = true
 			default:
+				rec.omittedOther[f.owner]++
 				v.w.classes["listing-misses-new-file"] = true
 			}
 		}
@@ -571,6 +640,7 @@ func (w *vWorldC12) runProcess(proc int, eps []vEpisodeC12) {
 		w.mu.Lock()
 		if !v.dead {
 			w.acquiring[v.inc] = &vWindowC12{}
+			v.stallUsed = 0
 			if len(w.acquiring) >= 2 {
 				w.classes["concurrent-acquisitions"] = true
 			}
@@ -588,13 +658,14 @@ func (w *vWorldC12) runProcess(proc int, eps []vEpisodeC12) {
 		w.logf("p%d#%d LockRepo(exclusive=%v) -> %v", proc, v.inc, ep.Excl, err)
 		switch {
 		case err == nil && !v.dead:
-			w.holders[v.inc] = &vHolderC12{proc: proc, excl: ep.Excl, ctx: lctx}
+			nh := &vHolderC12{proc: proc, inc: v.inc, excl: ep.Excl, ctx: lctx, since: time.Now(), list: v.lastList}
+			w.holders[v.inc] = nh
 			if ep.Excl {
 				w.classes["acquired-exclusive"] = true
 			} else {
 				w.classes["acquired-shared"] = true
 			}
-			w.checkInvariant(fmt.Sprintf("p%d LockRepo returned", proc))
+			w.checkInvariantNew(fmt.Sprintf("p%d LockRepo returned", proc), nh)
 		case IsAlreadyLocked(errors.Unwrap(err)) || IsAlreadyLocked(err):
 			w.classes["refused-already-locked"] = true
 		}
@@ -649,6 +720,10 @@ func (w *vWorldC12) sortedParked() []*vOpC12 { // w.mu held
 }
 
 func (w *vWorldC12) releaseOp(op *vOpC12) { // w.mu held
+	op.view.stallUsed += time.Since(op.at)
+	if op.view.stallUsed > w.maxStall {
+		w.maxStall = op.view.stallUsed
+	}
 	for i, p := range w.parked {
 		if p == op {
 			w.parked = append(w.parked[:i], w.parked[i+1:]...)
@@ -697,14 +772,17 @@ func (w *vWorldC12) schedule(nprocs int) {
 			w.abort("step limit")
 			continue
 		}
+		// assumption of the statement: a process never stalls longer than MaxPark (< the
+		// staleness margin) inside one lock operation. room = how far virtual time may
+		// still advance before the most stalled process exhausts that budget.
 		now := time.Now()
 		oldest := parked[0]
+		room := time.Duration(1 << 62)
 		for _, op := range parked {
-			if op.at.Before(oldest.at) || (op.at.Equal(oldest.at) && op.arrival < oldest.arrival) {
-				oldest = op
+			if r := w.sc.MaxPark - op.view.stallUsed - now.Sub(op.at); r < room {
+				room, oldest = r, op
 			}
 		}
-		room := w.sc.MaxPark - now.Sub(oldest.at)
 		// two drawn numbers per step: a decides which processes are passed over at this
 		// step (a lazy process models a slow client or connection), b picks the operation
 		// to release among the others or lets virtual time advance
@@ -721,7 +799,6 @@ func (w *vWorldC12) schedule(nprocs int) {
 			w.releaseOp(parked[0])
 			w.mu.Unlock()
 		case room <= 0:
-			// assumption of the statement: no operation stalls longer than MaxPark
 			w.releaseOp(oldest)
 			w.mu.Unlock()
 		case len(eligible) == 0 || b >= 80:
@@ -756,14 +833,15 @@ func runScenarioC12(t *testing.T, sc *vScenarioC12) *vWorldC12 {
 		w.schedule(len(sc.Procs))
 		synctest.Wait()
 		w.end = time.Since(w.start)
-		// a lock file may only be left behind by a crashed process
 		w.mu.Lock()
 		for _, f := range w.files {
 			if !f.removed {
 				if w.views[f.owner].dead {
 					w.classes["lock-left-by-crashed-process"] = true
-				} else if w.violation == "" && !w.aborted {
-					w.violation = fmt.Sprintf("lock file f%d of process %d (not crashed) is left in the repository after the process finished", f.seq, w.views[f.owner].proc)
+				} else {
+					// release stalled beyond the 1 min grace period after cancellation; not
+					// part of this property (C13 covers the release of the lock file)
+					w.classes["lock-left-by-finished-process"] = true
 				}
 			}
 		}
@@ -808,8 +886,14 @@ func TestVerifC12LockExclusion(t *testing.T) {
 		if w.aborted && w.violation == "" {
 			rt.Fatalf("harness: scenario aborted (step limit)\n%s", strings.Join(w.trace, "\n"))
 		}
+		if w.violation != "" && w.shape == "refresh-listing-gap" && st.Known("C12:refresh-listing-gap") {
+			// listed finding: refresh removes the old lock file while the replacement is
+			// not yet visible in other processes' listings; any other shape still fails
+			st.Class("known:refresh-listing-gap")
+			return
+		}
 		if w.violation != "" {
-			rt.Fatalf("C12 violated: %s\nscenario: %+v\ntrace:\n%s", w.violation, sc, strings.Join(w.trace, "\n"))
+			rt.Fatalf("C12 violated (shape %q): %s\nscenario: %+v\ntrace:\n%s", w.shape, w.violation, sc, strings.Join(w.trace, "\n"))
 		}
 	})
 	st.Note("schedules", nSched)
